@@ -85,6 +85,10 @@ def run_check(prop: str, tier: str, seed: int) -> int:
         from .rules.dtypes import check_bool_identity
 
         check_bool_identity(ctx, f"{prop}-dd", anchored)
+        # shared rule P: package plumbing (process-wide configuration, public names bound to their own functions)
+        from . import plumbing
+
+        plumbing.check(ctx, f"{prop}-pp", os.path.join(os.path.dirname(os.path.abspath(__file__)), "signatures.json"))
         # wall-clock limit for the rule module (the clean tree needs seconds): a term explosion on an unusual variant
         # ends as ANALYSIS-ERROR, never as a hang
         import signal
